@@ -191,30 +191,34 @@ Reopen ==
 \* POST /import -> insert_frame: stored as is, no GC trigger, registered if it is a context frame
 OpImport(id, c, t, ttl) ==
   /\ Client
-  /\ Cardinality(imported) < MaxImports
-  /\ id \notin DOMAIN acc
+  /\ Cardinality(imported) < MaxImports \/ id \in Ids
   /\ (t = XC => ttl = Forever)
   /\ Log([op |-> "import", id |-> id, ctx |-> c, topic |-> t, ttl |-> ttl])
-  /\ UNCHANGED <<gcq, clock, k, removed, gone, headKs, eph, lastApp, met, bad>>
-  /\ IF t \in NulTopics
-     THEN \* rejected by idx_topic_key_from_frame before anything is written
-          UNCHANGED <<stream, idxT, idxC, acc, contexts, imported, owed, evictable>>
-     ELSE LET f == [topic |-> t, ctx |-> c, ttl |-> ttl, meta |-> M0, hash |-> M0] IN
-          /\ stream' = Put(stream, id, f)
-          /\ idxT' = idxT \cup {<<c, t, id>>}
-          /\ idxC' = idxC \cup {<<c, id>>}
-          /\ acc' = Put(acc, id, f)
-          /\ contexts' = IF t = XC /\ c = Z THEN contexts \cup {id} ELSE contexts
-          /\ imported' = imported \cup {id}
-          /\ owed' = owed \ {<<c, t>>}
-          /\ evictable' = evictable \cup EvictableNow(G1)
+  /\ UNCHANGED <<gcq, clock, k, headKs, eph, lastApp, met>>
+  /\ LET conflict == id \in Ids /\ (stream[id].ctx # c \/ stream[id].topic # t)
+         rejected == t \in NulTopics \/ conflict
+         f == [topic |-> t, ctx |-> c, ttl |-> ttl, meta |-> M0, hash |-> M0]
+     IN
+     /\ bad' = bad \cup ImportVerdict(G, id, f, ~rejected)
+     /\ IF rejected
+        THEN \* NUL topic, or another frame already lives under this id: rejected whole, nothing written
+             UNCHANGED <<stream, idxT, idxC, acc, contexts, imported, owed, evictable, removed, gone>>
+        ELSE /\ stream' = Put(stream, id, f)
+             /\ idxT' = idxT \cup {<<c, t, id>>}
+             /\ idxC' = idxC \cup {<<c, id>>}
+             /\ acc' = Put(acc, id, f)
+             /\ removed' = removed \ {id} /\ gone' = gone \ {id}
+             /\ contexts' = IF t = XC /\ c = Z THEN contexts \cup {id} ELSE contexts
+             /\ imported' = imported \cup {id}
+             /\ owed' = owed \ {<<c, t>>}
+             /\ evictable' = evictable \cup EvictableNow(G1)
 
 Finish ==
   /\ ~fin /\ nops = MaxOps /\ fin' = TRUE
   /\ UNCHANGED <<stream, idxT, idxC, contexts, gcq, clock, k, nops, acc, removed, gone, evictable, headKs,
                  eph, lastApp, imported, met, owed, bad, hist>>
 
-ImportIds == {ts * W + j : ts \in 1..MaxClock, j \in {1}}
+ImportIds == {ts * W + j : ts \in 1..MaxClock, j \in {1}} \cup Ids
 ReadCtxs == {ALL, Z} \cup (contexts \ {Z})
 Lasts == {NOID} \cup DOMAIN acc
 
